@@ -32,7 +32,7 @@ def gen(rng, tier, idx):
             marks[str(ty)] = {"title": "mark %d" % ty, "stack": rk.chance(50),
                               "labels": {str(v): "label %d" % v for v in rk.sample(range(1, 20), rk.randint(0, 3))}}
     desc = mgen.gen_world_desc(rng.derive("world"), nlooms=(1, 2), ncpus=(1, 3), nprocs=(1, 2), nthreads=(1, 3),
-                               models=models, marks=marks)
+                               models=models, marks=marks, skews=rng.derive("skew").chance(35))
     g = mgen.Gen(rng.derive("workload"), desc,
                  knobs={"w_state": 25, "w_aff": 15, "w_region": 30, "w_task": 12 if ("nosv" in models or "nanos6" in models) else 0,
                         "w_mark": 10 if marks else 0, "w_flush": 4, "w_filler": 3, "w_kernel": 5 if "kernel" in models else 0,
